@@ -415,6 +415,8 @@ def run_all(hs, logdir):
             ov = make_overlay(os.path.join(root, "ind_f%d" % k), prop=hs[0].id, only_file=hf)
             for h in [x for x in broken if x.hfile == hf]:
                 tdir = os.path.join(root, "target_f%d%s" % (k, ("_" + re.sub(r"\W", "_", h.features)) if h.features else ""))
+                h.only_file = hf
+                h.perfile_overlay = ov
                 try:
                     h.result = run_harness(h, ov, tdir, logdir, tag=".perfile")
                 except Exception as e:  # noqa
@@ -430,7 +432,7 @@ def playback(h, logdir):
     """Confirm a counter-example natively: ask Kani for concrete values, add the generated unit test to the
     harness module in a fresh overlay, run it with `cargo kani playback` (no stubs, real code)."""
     root = scratch_root()
-    overlay = os.path.join(root, "ind")
+    overlay = getattr(h, "perfile_overlay", None) or os.path.join(root, "ind")
     tdir = os.path.join(root, "target_pb")
     # (extracting the trace makes the Kani driver itself allocate a lot: a generous address-space cap for this one run)
     r = run_harness(h, overlay, tdir, logdir, extra=["-Z", "concrete-playback", "--concrete-playback=print"], tag=".cex", cap_gb=max(40, h.mem))
@@ -461,7 +463,7 @@ def _play_one(h, root, logdir, code):
     tname = m.group(1)
     pdir = os.path.join(root, "play_" + h.name)
     shutil.rmtree(pdir, ignore_errors=True)
-    make_overlay(pdir, extra_tests={h.hfile: code}, prop=h.id)
+    make_overlay(pdir, extra_tests={h.hfile: code}, prop=h.id, only_file=getattr(h, "only_file", None))
     log = os.path.join(logdir, h.name + ".playback.log")
     env = dict(ENV, CARGO_TARGET_DIR=os.path.join(root, "target_play"), RUST_BACKTRACE="0")
     cmd = ["cargo", "kani", "playback", "-Z", "concrete-playback"] + feature_args(h) + ["--", tname]
@@ -497,7 +499,10 @@ def replay_artefact(path, logdir):
     tname = re.search(r"fn (kani_concrete_playback_\w+)\(", code).group(1)
     root = scratch_root()
     pdir = os.path.join(root, "replay")
-    make_overlay(pdir, extra_tests={hfile: code})
+    pm = re.search(r"\(property (C\d\d)\)", text)
+    # only the harness file of the counter-example (plus the shared rigs) is appended: other harness files of the property may
+    # not compile against the tree under replay
+    make_overlay(pdir, extra_tests={hfile: code}, prop=pm.group(1) if pm else None, only_file=hfile if pm else None)
     os.makedirs(logdir, exist_ok=True)
     log = os.path.join(logdir, "replay.log")
     feats = []
